@@ -252,6 +252,20 @@ def make_currents(cspec, t_total=None):
     if cspec["kind"] == "dict":
         return currents_at(cspec, 0.0)
 
+    if cspec.get("same_dict"):
+        # a callable that keeps one dict and updates it in place (e.g. a source object holding its present output)
+        held = {}
+
+        def currents_in_place(t):
+            new = currents_at(cspec, t, t_total)
+            for key in list(held):
+                if key not in new:
+                    del held[key]
+            held.update(new)
+            return held
+
+        return currents_in_place
+
     def currents(t):
         return currents_at(cspec, t, t_total)
 
